@@ -40,6 +40,9 @@ OPS = [
     ("X.add_pixels", "P1@%d" % D), ("X.add_pixels", "P2@%d" % (D - 1)), ("Y.add_pixels", "P3@%d" % D),
     ("L.add_circles", "C1"), ("H.add_circles", "C2"),
     ("X.union", "Y"), ("Y.union", "X"), ("X.union", "L"), ("X.union", "H"), ("L.union", "X"), ("H.union", "X"),
+    # union without renormalisation: normal form (area, single representation) is deferred until the next normalising
+    # operation on that region, membership / pixel set / exports are not
+    ("X.union_norenorm", "L"), ("X.union_norenorm", "Y"), ("X.union_norenorm", "H"),
     ("X.without", "Y"), ("Y.without", "X"), ("X.intersect", "Y"), ("X.symmetric_difference", "Y"),
     ("X.sky_within", ""), ("Y.sky_within", ""), ("L.sky_within", ""),
     ("X.get_demoted", ""), ("Y.get_demoted", ""), ("H.get_demoted", ""), ("X.get_area", ""),
@@ -49,23 +52,34 @@ CIRC = dict(C1=C1, C2=C2, C3=C3)
 
 
 class State(object):
-    __slots__ = ("reg", "model")
+    __slots__ = ("reg", "model", "loose")
 
     def __init__(self):
         self.reg = {k: Region(maxdepth=v) for k, v in DEPTHS.items()}
         self.model = {k: frozenset() for k in DEPTHS}
+        self.loose = {k: False for k in DEPTHS}        # True after union(renorm=False) until the next normalising operation
 
 
 def idrepr(p):
     return repr(p.item() if hasattr(p, "item") else p)
 
 
+# a non-initial start state (every register populated, X queried once): histories of length n from here are histories of
+# length n + len(POPULATED) from the empty state
+POPULATED = ["X.add_circles(C1)", "X.sky_within()", "Y.add_pixels(P3@%d)" % D, "Y.add_circles(C2)", "L.add_circles(C1)", "H.add_circles(C2)"]
+
+
 class RegionSystem(object):
-    def __init__(self, ops=None):
+    def __init__(self, ops=None, prefix=None):
         self.oplist = ops or OPS
+        self.prefix = list(prefix or [])
 
     def init(self):
-        return State()
+        st = State()
+        for op in self.prefix:
+            st, viols = self.apply(st, op)
+            assert not viols, (op, viols)
+        return st
 
     def ops(self, state):
         return ["%s(%s)" % o for o in self.oplist]
@@ -79,7 +93,7 @@ class RegionSystem(object):
             alias = r.demoted is r.pixeldict.get(r.maxdepth)
             # the model set is part of the key: two histories that reach the same implementation state with
             # DIFFERENT models (only possible when the implementation is wrong) must both be checked
-            key.append((name, r.maxdepth, pd, dm, alias, tuple(sorted(r.pixeldict)), tuple(sorted(state.model[name]))))
+            key.append((name, r.maxdepth, pd, dm, alias, tuple(sorted(r.pixeldict)), tuple(sorted(state.model[name])), state.loose[name]))
         return tuple(key)
 
     # ---- transitions ---------------------------------------------------------
@@ -109,12 +123,16 @@ class RegionSystem(object):
             depth = int(dep)
             r.add_pixels(list(PS[nm]), depth)
             m |= hpset.descend(PS[nm], depth, md)
-        elif meth in ("union", "without", "intersect", "symmetric_difference"):
+        elif meth in ("union", "union_norenorm", "without", "intersect", "symmetric_difference"):
             o = new.reg[arg]
             om = new.model[arg]
             od = DEPTHS[arg]
-            if meth == "union":
-                r.union(o)
+            if meth in ("union", "union_norenorm"):
+                if meth == "union":
+                    r.union(o)
+                else:
+                    r.union(o, renorm=False)
+                    new.loose[target] = None     # decided below
                 if od == md:
                     m |= om
                 elif od > md:
@@ -148,7 +166,7 @@ class RegionSystem(object):
         elif meth == "get_area":
             a = r.get_area(degrees=False)
             exp = len(m) * hp.nside2pixarea(2 ** md)
-            if abs(a - exp) > 1e-9 * max(exp, 1e-12):
+            if not new.loose[target] and abs(a - exp) > 1e-9 * max(exp, 1e-12):
                 viols.append(dict(kind="query_answer", what="%s.get_area() = %.9g, model %.9g" % (target, a, exp)))
         elif meth == "saveload":
             f = os.path.join(os.environ.get("VERIF_SCRATCH", "/dev/shm"), "regsys_%d.mim" % os.getpid())
@@ -158,18 +176,23 @@ class RegionSystem(object):
         else:
             raise ValueError(op)
         new.model[target] = frozenset(m)
+        if meth in ("add_circles", "add_poly", "add_pixels", "union", "without", "intersect", "symmetric_difference"):
+            new.loose[target] = False           # these renormalise their target
+        elif new.loose[target] is None:
+            new.loose[target] = True
         return new, viols
 
     # ---- invariants ----------------------------------------------------------
     def check(self, state, history):
         viols = []
         for name in sorted(state.reg):
-            viols.extend(check_region(state.reg[name], state.model[name], name))
+            viols.extend(check_region(state.reg[name], state.model[name], name, loose=state.loose[name]))
         return viols
 
 
-def check_region(reg, model, name="R"):
-    """all C08 invariants of one region against its model set; never mutates `reg`"""
+def check_region(reg, model, name="R", loose=False):
+    """all C08 invariants of one region against its model set; never mutates `reg`.  loose: the last change was a
+    union(renorm=False): single representation and area are deferred, everything else is not"""
     viols = []
     md = reg.maxdepth
     npix = 12 * 4 ** md
@@ -189,7 +212,7 @@ def check_region(reg, model, name="R"):
                 viols.append(dict(kind="invalid_level", what="%s holds pixels at level %d (maxdepth %d)" % (name, lvl, md)))
                 return viols
     have = {lvl: set(int(p) for p in s) for lvl, s in reg.pixeldict.items()}
-    for lvl, s in have.items():
+    for lvl, s in ([] if loose else have.items()):
         for p in s:
             for k in range(1, lvl):
                 if lvl - k in have and (p >> (2 * k)) in have[lvl - k]:
@@ -202,7 +225,7 @@ def check_region(reg, model, name="R"):
     c = copy.deepcopy(reg)
     area = c.get_area(degrees=False)
     exp = len(model) * hp.nside2pixarea(2 ** md)
-    if abs(area - exp) > 1e-9 * max(exp, 1e-12):
+    if not loose and abs(area - exp) > 1e-9 * max(exp, 1e-12):
         viols.append(dict(kind="area", what="%s.get_area() = %.9g sr, model %.9g sr (%d deepest-level pixels)" % (
             name, area, exp, len(model))))
     c = copy.deepcopy(reg)
